@@ -18,11 +18,13 @@ INSERT INTO A VALUES (1, 'one', 10);
 INSERT INTO A VALUES (2, 'two', 20);
 INSERT INTO B VALUES (7, 1);
 INSERT INTO B VALUES (8, 0);
+INSERT INTO Inferred VALUES (5, 'x');
 '''
 T1 = '''INSERT INTO A VALUES (3, 'three', 30);
 INSERT INTO B VALUES (9, 3);
 CREATE TABLE C (Id UNIQUE_ID);
 INSERT INTO C VALUES (4);
+INSERT INTO Inferred VALUES (6, 'y');
 '''
 MUTS = ['write', 'new', 'delete', 'relate', 'unrelate', 'append_attr', 'delete_attr', 'define_id',
         'define_class', 'write_id']
@@ -101,7 +103,13 @@ def check(si: int) -> bool:
                 LAST_DIFF = ('build differs from a build of the same input by a fresh loader', seq, snaps[-1], ref)
                 return False
         elif step[0] == 'input':
-            text = T1 if T1 not in accepted else "INSERT INTO A VALUES (%d, 'more', 0);\n" % (10 + len(accepted))
+            if T1 not in accepted:
+                text = T1
+            elif not any('CREATE TABLE Inferred' in t for t in accepted):
+                # an explicit definition of a class that earlier builds had to infer from its rows
+                text = "CREATE TABLE Inferred (a INTEGER, b STRING);\nINSERT INTO A VALUES (%d, 'more', 0);\n" % (10 + len(accepted))
+            else:
+                text = "INSERT INTO A VALUES (%d, 'more', 0);\n" % (10 + len(accepted))
             with notrace():
                 loader.input(text)
             accepted.append(text)
